@@ -123,6 +123,7 @@ pub async fn scenario(seed: u64, hostile: bool) {
     let mut rclosed: std::collections::HashSet<u32> = std::collections::HashSet::new();
     let mut ops: Vec<Op<ConnRes>> = Vec::new();
     let mut kept: Vec<(Sender, Receiver)> = Vec::new();
+    let mut port_senders: Vec<tokio::task::JoinHandle<()>> = Vec::new();
     let mut next_op = 1u64;
     let mut a_frames = 0usize;
     let mut ended = false;
@@ -144,6 +145,26 @@ pub async fn scenario(seed: u64, hostile: bool) {
             }));
         }
         poll_ops(&mut ops, &mut kept);
+        // ---- a local user of A sends port requests over an established port (PortData emitted by A)
+        if !kept.is_empty() && port_senders.len() < 2 && rng.chance(1, 3) {
+            let (mut tx, rx) = kept.swap_remove(rng.below(kept.len() as u64) as usize);
+            let n = rng.range(1, 2);
+            let wait = rng.chance(1, 2);
+            tr(json!({"ev": "a_send_ports", "local": p32(tx.local_port()), "n": n, "wait": wait}));
+            port_senders.push(spawn_d(1, async move {
+                let alloc = tx.port_allocator();
+                let mut reqs = Vec::new();
+                for k in 0..n {
+                    if let Some(p) = alloc.try_allocate() {
+                        reqs.push(chmux::PortReq::new(p).with_id(700 + k as u32));
+                    }
+                }
+                let _connects = tx.connect(reqs, wait).await;
+                // keep the port and the pending requests alive until the scenario ends
+                futures::future::pending::<()>().await;
+                drop(rx);
+            }));
+        }
         settle().await;
         // ---- read what A emitted
         while let Some(f) = ab.take_out() {
@@ -310,6 +331,9 @@ pub async fn scenario(seed: u64, hostile: bool) {
     tr(json!({"ev": "peer_end", "running": !ended, "pending": pending, "a_frames": a_frames}));
     drop(ops);
     drop(kept);
+    for h in port_senders {
+        h.abort();
+    }
     drop(client);
     drop(listener);
     if let Some(h) = run {
